@@ -148,6 +148,24 @@ def check_geom(g, rec):
         if not np.array_equal(c2[name], c2["col2im"]):
             raise Violation("disagree", f"{name} != col2im in the 2-D layout; geometry={_gs(g)}")
 
+    # ---- the index-based pair's documented keywords: return_indices / col_indices -------------------
+    for as_unfold, want_cols in ((True, outs3["im2col"]), (False, outs2["im2col"])):
+        r = _call("im2col(return_indices=True)", ct.im2col, x, K, D, S, P, pv, return_indices=True, as_unfold=as_unfold)
+        if not (isinstance(r, tuple) and len(r) == 2):
+            raise Violation("shape", f"im2col(return_indices=True) did not return (cols, col_indices); geometry={_gs(g)}")
+        _eq("im2col(return_indices=True)[0]", r[0], np.asarray(want_cols), g)
+        o = _call("im2col(col_indices=...)", ct.im2col, x, K, D, S, P, pv, col_indices=r[1], as_unfold=as_unfold)
+        _eq("im2col(col_indices=given)", o, np.asarray(want_cols), g)
+        idx = r[1]
+    r = _call("col2im(return_indices=True)", ct.col2im, y3, (N, C, H, W), K, D, S, P, return_indices=True)
+    if not (isinstance(r, tuple) and len(r) == 2):
+        raise Violation("shape", f"col2im(return_indices=True) did not return (image, col_indices); geometry={_gs(g)}")
+    _eq("col2im(return_indices=True)[0]", r[0], fold_want, g)
+    _eq("col2im(col_indices=given)", _call("col2im(col_indices=...)", ct.col2im, y3, (N, C, H, W), K, D, S, P, col_indices=idx),
+        fold_want, g)
+    _eq("col2im(col_indices=its own)", _call("col2im(col_indices=...)", ct.col2im, y3, (N, C, H, W), K, D, S, P, col_indices=r[1]),
+        fold_want, g)
+
     # ---- adjoint identity (pad value 0): <im2col(x), y> == <x, col2im(y)>, exact ----------------
     x64 = x.astype(np.float64)
     for name, fn in (("im2col", ct.im2col), ("im2col_v2", ct.im2col_v2), ("im2col_fast", ct.im2col_fast)):
@@ -184,6 +202,33 @@ def check_geom(g, rec):
     yw = _layout(gen.cyc(g["y"], wref.shape, dt), g.get("layout", "C"))
     pl = _call("place_windows", ct.place_windows, yw, (N, C, H, W), K, S, P, D)
     _eq("place_windows", pl, R.place2d_ref(yw, (N, C, H, W), k, s, p, d), g)
+
+
+@st.composite
+def long_side_cases(draw, big=False):
+    """one side just below / at / above 2^8 (big: 2^16) - where a narrow index or size type would wrap -, the other tiny"""
+    L = draw(st.integers(65530, 65540)) if big else draw(st.integers(250, 262))
+    other = draw(st.integers(1, 3))
+    kl = draw(st.integers(1, 3)); ko = draw(st.integers(1, other))
+    a = {"L": L, "k": kl, "s": draw(st.sampled_from([1, 1, 2, 3])), "d": draw(st.sampled_from([1, 1, 2])), "p": draw(st.integers(0, 3))}
+    b = {"L": other, "k": ko, "s": draw(st.integers(1, 2)), "d": 1, "p": draw(st.integers(0, 1))}
+    if draw(st.booleans()):
+        a, b = b, a
+    g = {"N": 1, "C": draw(st.integers(1, 2)), "H": a["L"], "W": b["L"],
+         "k": [a["k"], b["k"]], "s": [a["s"], b["s"]], "d": [a["d"], b["d"]], "p": [a["p"], b["p"]],
+         "spell": {}, "pad_value": draw(st.integers(-5, 5)), "dtype": draw(st.sampled_from(["float64", "float32"])),
+         "layout": "C", "pow2": 0, "x_seed": draw(st.integers(0, 10 ** 6))}
+    g["y"] = draw(hnp.arrays(np.int8, (48,), elements=st.integers(-9, 9), fill=st.nothing())).tolist()
+    return g
+
+
+def check_long_side(g, rec):
+    n = g["N"] * g["C"] * g["H"] * g["W"]
+    i = np.arange(n, dtype=np.int64)
+    g = dict(g, x=(((i * 7 + g["x_seed"]) * 2654435761 >> 7) % 19 - 9).tolist())
+    rec.tag("side_near_2^16" if max(g["H"], g["W"]) > 1000 else "side_near_2^8")
+    check_geom(g, rec)
+    rec.nontrivial(True)
 
 
 @st.composite
@@ -306,6 +351,9 @@ def check_enum(g, rec):
 def subchecks():
     return [
         SubCheck("geom2d", check_geom, geom_cases, quick=300, thorough=700, shards_quick=8, shards_thorough=16),
+        SubCheck("long_side", check_long_side, long_side_cases, quick=48, thorough=600, shards_quick=4, shards_thorough=8),
+        SubCheck("long_side_2^16", check_long_side, lambda: long_side_cases(big=True), quick=2, thorough=6, shards_quick=4,
+                 shards_thorough=8),
         SubCheck("geom1d", check_geom1d, geom1d_cases, quick=300, thorough=3000, shards_quick=1, shards_thorough=2),
         SubCheck("grid", check_enum, None, enum=enum_grid, exhaustive=True, shards_quick=8, shards_thorough=16),
     ]
